@@ -125,6 +125,57 @@ pub fn exec_look(ops: Vec<Op>, probes: Vec<(ATerm, &'static str)>, seed: u64) ->
                 None => "rep:0|slots:?".to_string(),
             });
         }
+        // node-level probes: e-nodes built from the handles the history returned (some of them stale: their class lost a slot
+        // or was merged away since) are looked up and then inserted with `add` — known nodes must create nothing
+        for _ in 0..8 {
+            if tracked.is_empty() {
+                break;
+            }
+            let a = tracked[rng.below(tracked.len())].clone();
+            let b2 = tracked[rng.below(tracked.len())].clone();
+            let node = match rng.below(5) {
+                0 => Main::H(a),
+                1 => Main::K(a, b2),
+                2 => Main::Add(a, b2),
+                3 => Main::Lam(Bind { slot: slot_of_code(10), elem: a }),
+                _ => Main::T3(a.clone(), b2, a),
+            };
+            let l = match guarded(|| eg.lookup(&node)) {
+                Ok(x) => x,
+                Err(_) => {
+                    viol("node-lookup-panics");
+                    continue;
+                }
+            };
+            let before = eg.verif_measure();
+            let nodes_before = eg.total_number_of_nodes();
+            let n2 = node.clone();
+            let r = match guarded(|| eg.add(n2)) {
+                Ok(r) => r,
+                Err(_) => {
+                    viol("node-add-panics");
+                    continue;
+                }
+            };
+            let after = eg.verif_measure();
+            let created = after.0 != before.0 || eg.total_number_of_nodes() != nodes_before;
+            if l.is_some() == created {
+                viol("node-lookup-disagrees-with-add-creating-something");
+            }
+            if let Some(l) = &l {
+                if !eg.eq(l, &r) {
+                    viol("node-lookup-not-eq-add");
+                }
+            }
+            match guarded(|| eg.lookup(&node)) {
+                Ok(Some(l2)) => {
+                    if !eg.eq(&l2, &r) {
+                        viol("node-lookup-after-add-not-eq-add");
+                    }
+                }
+                _ => viol("node-not-represented-after-add"),
+            }
+        }
         (outs, tags)
     });
     match r {
